@@ -2044,7 +2044,7 @@ mod string_store {
                         (
                             r.hash,
                             r.as_str().to_owned(),
-                            r.as_str().as_ptr() as usize,
+                            &**r as *const ObjString as usize,
                         )
                     })
                 })
@@ -2086,17 +2086,17 @@ pub mod verif_intern {
             }
         }
 
-        /// Identity (address of the interned text) of the entry found for (hash, text).
+        /// Identity (address of the interned string object) of the entry found for (hash, text).
         pub fn get(&self, hash: u64, text: &str) -> Option<usize> {
             self.store
                 .get((hash, text))
-                .map(|r| r.as_str().as_ptr() as usize)
+                .map(|r| &**r as *const ObjString as usize)
         }
 
         /// Inserts a fresh ObjString with the given hash; returns (identity, replaced an entry).
         pub fn insert(&mut self, hash: u64, text: &str) -> (usize, bool) {
             let string = Root::new(ObjString::new(self.class, text, hash));
-            let id = string.as_str().as_ptr() as usize;
+            let id = &*string as *const ObjString as usize;
             let previous = self.store.insert(string);
             (id, previous.is_some())
         }
@@ -2110,6 +2110,6 @@ pub mod verif_intern {
     /// Cached hash and identity of the string the VM interns for `text`.
     pub fn vm_intern(vm: &mut Vm, text: &str) -> (u64, usize) {
         let s = vm.new_gc_obj_string(text);
-        (s.hash, s.as_str().as_ptr() as usize)
+        (s.hash, &*s as *const ObjString as usize)
     }
 }
